@@ -35,6 +35,24 @@ def cactus(r, k):
         E += [(vs[i], vs[(i + 1) % L]) for i in range(L)]
     return E, n
 
+def torus(a, b):
+    return [((i * b + j), (i * b + (j + 1) % b)) for i in range(a) for j in range(b)] + [((i * b + j), (((i + 1) % a) * b + j)) for i in range(a) for j in range(b)]
+
+def large_tie_graphs(r, tier):
+    """graphs with more than 64 vertices and very many equal-length shortest paths (unit weights)"""
+    out = []
+    out.append((81, torus(9, 9), "torus9x9"))
+    n, E = shuffle_graph(r, 100, grid(10, 10)); out.append((n, E, "grid10x10-shuffled"))
+    n, E = shuffle_graph(r, 128, hypercube(7)); out.append((n, E, "Q7-shuffled"))
+    out.append((72, bipartite(2, 70), "K2,70"))
+    n = 100; E = gnp(r, n, 0.05); out.append((n, E, "gnp100-unit"))
+    if tier != "quick":
+        out.append((256, hypercube(8), "Q8"))
+        n, E = shuffle_graph(r, 144, torus(12, 12)); out.append((n, E, "torus12x12-shuffled"))
+        for _ in range(4):
+            n = r.randint(70, 140); out.append((n, gnp(r, n, 3.0 / n), "gnp-unit-large"))
+    return [(n, [(u, v, 1) for (u, v) in E], 0, tag) for (n, E, tag) in out]
+
 def nverts(E, n=None): return n if n is not None else (max(max(e) for e in E) + 1 if E else 0)
 
 def disjoint_union(parts):
@@ -72,12 +90,22 @@ def shuffle_graph(r, n, E):
 def random_graph(r, maxn=12, big=False):
     """a structured random simple graph: (n, E, tag)"""
     kind = r.choice(["gnp-sparse", "gnp-mid", "gnp-dense", "complete", "bipartite", "grid", "hypercube", "wheel", "theta",
-                     "cactus", "petersen", "union", "tree", "forest", "empty", "cycle", "gnp-sparse", "gnp-mid"])
+                     "cactus", "petersen", "union", "tree", "forest", "empty", "cycle", "gnp-sparse", "gnp-mid", "dense+tails", "dense+tails"])
     n = r.randint(2, maxn)
     if kind == "gnp-sparse": E = gnp(r, n, 1.6 / max(n, 2))
     elif kind == "gnp-mid": E = gnp(r, n, 0.35)
     elif kind == "gnp-dense": n = min(n, 9 if not big else maxn); E = gnp(r, n, 0.8)
     elif kind == "complete": n = r.randint(2, 6 if not big else 9); E = complete(n)
+    elif kind == "dense+tails":
+        # a dense core (supports reach |S| >= n: the all-vertices search branch) plus isolated / pendant vertices and
+        # short tails whose lightest odd closed walk is not a simple cycle through them
+        k = r.randint(5, 7 if not big else 8)
+        E = [e for e in complete(k) if r.random() < 0.92]; n = k
+        for _ in range(r.randint(1, 3)):
+            t = r.choice(["isolated", "pendant", "path2"])
+            if t == "isolated": n += 1
+            elif t == "pendant": E.append((r.randrange(k), n)); n += 1
+            else: E.append((r.randrange(k), n)); E.append((n, n + 1)); n += 2
     elif kind == "bipartite": a, b = r.randint(1, 4), r.randint(1, 4); n = a + b; E = bipartite(a, b)
     elif kind == "grid": a, b = r.randint(1, 4), r.randint(2, 4); n = a * b; E = grid(a, b)
     elif kind == "hypercube": d = r.randint(1, 3 if not big else 4); n = 1 << d; E = hypercube(d)
